@@ -968,6 +968,14 @@ def explicit(tier, seed):
                 for res in (False, True):
                     yield {"raw": "established", "base": False, "hex": hx,
                            "v12": v12, "ign": ign, "res": res}
+    # saved inputs of earlier findings (replayed in every tier)
+    import json as _json
+    import os
+    from vlib import ROOT
+    reg = os.path.join(ROOT, "assets", "regress", "c08_raw.json")
+    if os.path.exists(reg):
+        for c in _json.load(open(reg)):
+            yield c
     fixed = [["empty"], ["zero"], ["trunc", 0], ["extend", 0],
              ["hugelen", 7], ["flip", 0, 0xff], ["setlen", 0, 2, "max"],
              ["setlen", 0, 1, "zero"], ["vec", 0, "empty", 0],
